@@ -413,7 +413,12 @@ func (c19) Run(t *tape.Tape, cfg sim.Config) (res sim.Result) {
 					}
 				}
 				how = fmt.Sprintf("WithStartFunctions(%v)", st)
-				nv = mc.WithStartFunctions(st...)
+				// the embedder passes a slice it keeps using afterwards (the argument is the caller's)
+				arg := append(make([]string, 0, len(st)+2), st...)
+				nv = mc.WithStartFunctions(arg...)
+				for j := range arg {
+					arg[j] = "overwritten-by-the-caller"
+				}
 				rec.starts, rec.startsSet = st, true
 			case 4:
 				stdouts = append(stdouts, &bytes.Buffer{})
